@@ -118,3 +118,9 @@ Definition v_clip (x : val) (lo hi : option val) : val :=
   match hi with Some h => v_min y h | None => y end.
 Definition M_clip_v := M_clip (A := val) v_clip.
 Definition S_clip_v := S_clip (A := val) v_clip.
+
+(* ---------- block + int64 array along the rows, for int64 / float64 blocks ---------- *)
+Definition v_addz (x : val) (o : Z) : val :=
+  match x with VInt z => VInt (z + o) | VFlt n d => VFlt (n + o * d) d | _ => x end.
+Definition M_binop_row_v := M_binop_row (A := val) (B := Z) v_addz (fun d => d).
+Definition S_binop_row_v := S_binop_row (A := val) (B := Z) v_addz (fun d => d).
